@@ -395,6 +395,8 @@ class TaggedUnionConverter(UnionConverter):
         (`try_convert` is idempotent; an enclosing union relies on that to serialize a variant in tagged form)
         """
         for (ty, conv) in zip(self.types, self.converters):
+            if t.get_origin(ty) is t.Annotated:
+                ty = t.get_args(ty)[0]  # a variant with annotations of its own
             if isinstance(ty, type) and isinstance(val, ty):
                 return conv
         return None
